@@ -1166,12 +1166,12 @@ def run(ctx: fw.Ctx) -> int:
     for name, sc in corpus_scenarios():
         ctx.count('corpus', name)
         scenario_cases(ctx, sc, D)
-    for i in range(ctx.scale(500, 4000)):
+    for i in range(ctx.scale(400, 4000)):
         scenario_cases(ctx, G.scenario(), D)
-    direct_patch_cases(ctx, G, ctx.scale(900, 9000), D)
-    response_cases(ctx, G, ctx.scale(300, 3000), D, exhaustive_k=4)
-    selection_table(ctx, D, stride=ctx.scale(6, 1))
-    pointer_cases(ctx, G, ctx.scale(150, 1500), D)
+    direct_patch_cases(ctx, G, ctx.scale(500, 9000), D)
+    response_cases(ctx, G, ctx.scale(200, 3000), D, exhaustive_k=4)
+    selection_table(ctx, D, stride=ctx.scale(9, 1))
+    pointer_cases(ctx, G, ctx.scale(100, 1500), D)
 
     for name, cases in D.items():
         ctx.differential(name, HEADER, cases, shard=150 if not ctx.thorough else 400)
